@@ -126,7 +126,7 @@ EXC = {"ValueError": "ValueError", "TypeError": "TypeError", "AttributeError": "
        "KeyError": "KeyError", "IndexError": "IndexError",
        "DecodeError": "EDecode", "MissingRequiredAttribute": "EMissingRequired",
        "NotAllowedValue": "ENotAllowed", "TooManyValues": "ETooMany", "FormatError": "EFormat",
-       "MissingRequiredValue": "EMissingValue", "MissingAttribute": "EMissingAttribute", "InvalidRequest": "EInvalidRequest",
+       "MissingRequiredValue": "EMissingValue", "MissingAttribute": "EMissingAttribute", "UnsupportedAlgorithm": "EUnsupportedAlg", "InvalidRequest": "EInvalidRequest",
        "VerificationError": "EVerification", "SchemeError": "EScheme", "NotForMe": "ENotForMe",
        "IssuerMismatch": "EIssuerMismatch", "EXPError": "EExp", "IATError": "EIat", "MessageException": "EMessage"}
 
